@@ -274,10 +274,11 @@ def exchange_policy(ctx, rng):
         try:
             for point in ("userinfo", "introspection"):
                 rs.server.get_endpoint(point).kwargs["enable_claims_per_client"] = True
+                rs.server.get_endpoint(point).kwargs["add_claims_by_scope"] = True
             rs.sm.token_handler.handler["access_token"].kwargs["enable_claims_per_client"] = True
             for subject_of, holder in ((rich, poor), (poor, rich)):
                 u = rng.choice(["diana", "babs"])
-                scopes = ["openid", "offline_access"]
+                scopes = ["openid", "email", "offline_access"]
                 o = rs.run(("authz", u, subject_of, scopes))
                 if o[0] != "ok":
                     ctx.notes.append("exchange_policy: authz failed %r" % (o,))
@@ -309,6 +310,20 @@ def exchange_policy(ctx, rng):
                 rec["released"] = {k: sorted(x for x in v if x in users[u]) for k, v in views.items()}
                 ctx.case_seen(rec, True)
                 ctx.count("exchange-policy:%s" % ("holder-has-policy" if holder == rich else "subject-client-has-policy"))
+                # ---- a token without any audience (exchange without audience / resource): it is nobody else's to inspect
+                body3 = {"grant_type": drv_C05.TE, "subject_token": at, "subject_token_type": drv_C05.TT + "access_token"}
+                resp3, err3 = drv_C05.token_call(rs, holder, body3)
+                if resp3 and resp3.get("access_token"):
+                    third = [x for x in sess.CLIENTS if x not in (holder,)][0]
+                    try:
+                        ir3 = dict(ie.process_request(ie.parse_request(rs._token_req(third, {"token": resp3["access_token"]})))["response_args"])
+                    except Exception:
+                        ir3 = {}
+                    leaked = sorted(k for k in ir3 if k in users[u] and k not in PROTOCOL)
+                    ctx.count("exchange-policy:no-audience-token:%s" % ("active-to-third" if ir3.get("active") else "inactive-to-third"))
+                    if leaked:
+                        ctx.violation("released-to-foreign-audience", "introspection by %s of a token held by %s (no audience) released %r"
+                                      % (third, holder, leaked), dict(rec, third=third))
                 for point, payload in views.items():
                     mod = module_of(rs.server, point)
                     b = set(mod.kwargs.get("base_claims", {})) | set(mod.kwargs.get("always_add_claims", []) or [])
